@@ -170,11 +170,25 @@ pub fn ulp_out(x: f64, f32_: bool) -> f64 {
 
 /// Build a continuous edge table from candidate thresholds.  `delta(e)` is the output
 /// resolution (in x) at e; `cdf`/`sf` are the reference functions.
-pub fn table_cont(mut cand: Vec<f64>, f32_: bool, cdf: &dyn Fn(f64) -> f64, sf: &dyn Fn(f64) -> f64, delta: &dyn Fn(f64) -> f64) -> EdgeTable<f64> {
+pub fn table_cont(cand: Vec<f64>, f32_: bool, cdf: &dyn Fn(f64) -> f64, sf: &dyn Fn(f64) -> f64, delta: &dyn Fn(f64) -> f64) -> EdgeTable<f64> {
+    table_cont_scaled(cand, f32_, 1.0, cdf, sf, delta)
+}
+
+/// `zone_scale`: samplers of scale families compute a standardised variate and multiply
+/// by the scale last, so the standardised variate underflows at output magnitude
+/// `scale * MIN_POSITIVE`; the underflow zone is widened accordingly (never narrowed).
+pub fn table_cont_scaled(
+    mut cand: Vec<f64>,
+    f32_: bool,
+    zone_scale: f64,
+    cdf: &dyn Fn(f64) -> f64,
+    sf: &dyn Fn(f64) -> f64,
+    delta: &dyn Fn(f64) -> f64,
+) -> EdgeTable<f64> {
     // Underflow zone: below 2^10 * MIN_POSITIVE of the output type neither the output
     // spacing nor the intermediate arithmetic of a sampler is relative any more; values in
     // the zone are lumped into one cell by snapping thresholds to its boundary.
-    let zone = if f32_ { 1024.0 * f32::MIN_POSITIVE as f64 } else { 1024.0 * f64::MIN_POSITIVE };
+    let zone = (if f32_ { 1024.0 * f32::MIN_POSITIVE as f64 } else { 1024.0 * f64::MIN_POSITIVE }) * zone_scale.max(1.0);
     for x in cand.iter_mut() {
         if x.abs() < zone {
             *x = zone.copysign(*x); // +-0.0 included: an exact 0 is an underflowed value
